@@ -39,7 +39,6 @@ func Main(args []string) int {
 	child := fs.String("child", "", "child kind (internal)")
 	idx := fs.Int("idx", 0, "child index (internal)")
 	of := fs.Int("of", 1, "number of sibling children (internal)")
-	file := fs.String("file", "", "input file (internal)")
 	_ = fs.Parse(args)
 	if *child != "" {
 		switch *prop + ":" + *child {
@@ -56,7 +55,6 @@ func Main(args []string) int {
 		case "C46:conc":
 			return c46ConcChild(*tier, *idx, *of)
 		}
-		_ = file
 		fmt.Printf("unknown child %s:%s\n", *prop, *child)
 		return 2
 	}
@@ -199,4 +197,30 @@ func scale(tier string, quick, thorough int) int {
 		return thorough
 	}
 	return quick
+}
+
+// mon.Run.Violate keeps at most 200 violations per process and drops the rest; a defect that fires hundreds of
+// times would then hide a rarer one found later. Children therefore hand at most perSigCap violations per
+// signature to the run (the full tally is kept in the counter "violations:<signature>"), and parent-level
+// violations are merged, which is not capped.
+const perSigCap = 4
+
+type limiter struct {
+	run *mon.Run
+	n   map[string]int
+}
+
+func newLimiter(run *mon.Run) *limiter { return &limiter{run: run, n: map[string]int{}} }
+
+func (l *limiter) Violate(sig, detail string, replay interface{}) {
+	l.n[sig]++
+	l.run.Count("violations:"+sig, 1)
+	if l.n[sig] <= perSigCap {
+		l.run.Violate(sig, detail, replay)
+	}
+}
+
+func parentViolate(run *mon.Run, sig, detail string, replay interface{}) {
+	run.Count("violations:"+sig, 1)
+	run.Merge(mon.Partial{Violations: []mon.Violation{{Property: run.Property, Signature: sig, Detail: detail, Replay: replay}}})
 }
